@@ -30,6 +30,7 @@ type c13Content struct {
 	CT        string `json:"ct"`
 	IsJSON    bool   `json:"isJson"`
 	HasSchema bool   `json:"hasSchema"`
+	Untyped   bool   `json:"-"` // the schema says nothing about the type ({} or a description only): the field is *interface{}
 }
 
 // the json class of genResponseUnmarshal: in contentTypesJSON or IsMediaTypeJson
@@ -74,7 +75,8 @@ func c13GenOp(r *Rng, multiJSON bool) []c13Resp {
 					continue
 				}
 			}
-			rs.Contents = append(rs.Contents, c13Content{CT: ct, IsJSON: isJ, HasSchema: r.Chance(85)})
+			hs := r.Chance(85)
+			rs.Contents = append(rs.Contents, c13Content{CT: ct, IsJSON: isJ, HasSchema: hs, Untyped: hs && r.Chance(20)})
 		}
 		sort.Slice(rs.Contents, func(a, b int) bool { return rs.Contents[a].CT < rs.Contents[b].CT })
 		out = append(out, rs)
@@ -95,6 +97,9 @@ func c13Doc(ops [][]c13Resp) J {
 					mt := J{}
 					if c.HasSchema {
 						mt["schema"] = J{"type": "object", "properties": J{"a": J{"type": "string"}}}
+						if c.Untyped {
+							mt["schema"] = J{"description": "anything"}
+						}
 					}
 					content[c.CT] = mt
 				}
